@@ -47,6 +47,8 @@ def use_line(use, prog):
         'stdout-from': 'stdout -from %s\n ! is-empty' % prog,
         'env-from-stdout': 'env VERIF_P = -stdout-from %s' % prog,
         'stdout-from-transformed': 'stdout -from % echo x\n  -transformed-by run ' + prog + '\n  ! is-empty',
+        'prune-matcher-run': 'dir-contents -rel-home dd : -recursive -with-pruned ( run %s ) num-files >= 0' % prog,
+        'selection-matcher-run': 'dir-contents -rel-home dd : -selection ( run %s ) num-files >= 0' % prog,
     }[use]
 
 
@@ -125,7 +127,7 @@ def exec_case(task, cd):
     from harness import inproc
     c = task['case']
     slow = os.path.join(cd.home, 'slow.sh')
-    cd.write({'slow.sh': SLOW % dict(out=cd.out), 'some.txt': 'abc\n'}, mode={'slow.sh': 0o755})
+    cd.write({'slow.sh': SLOW % dict(out=cd.out), 'some.txt': 'abc\n', 'dd/sub/f.txt': 'x\n'}, mode={'slow.sh': 0o755})
     marker = os.path.join(cd.out, 'cleanup-marker')
     text = concretize(c, slow, 't', marker, expected_dur(c))
     cd.write({'c.case': text})
